@@ -265,14 +265,28 @@ Proof. split; [exact impl_play_safe|exact impl_play_live]. Qed.
 
 End OnePlay.
 
-(* the synthesized implementation wins from every state of the region *)
+(* the synthesized implementation - [impl_strategy], NAMED - is a winning
+   strategy from every state of the region: it is a valid strategy of the
+   mode and every play consistent with it is won *)
+Theorem implementation_is_winning_strategy s :
+  fst s < nx -> snd s < ny -> zf (stv s) = true ->
+  cvalid ny moore impl_strategy /\
+  forall p, inrange nx ny p -> p 0 = s -> cconsistent impl_strategy p ->
+            win_streett c E S holds goals plus_one p.
+Proof.
+  intros H1 H2 Hz. split; [apply impl_strategy_valid; lia|].
+  intros p Hr Hp0 Hcons. apply impl_play_won; [exact Hr|exact Hcons|].
+  rewrite Hp0. exact Hz.
+Qed.
+
+(* hence SOME strategy wins (the statement that does not name the
+   implementation; it also follows from the exactness of the region, C01) *)
 Theorem implementation_wins s :
   fst s < nx -> snd s < ny -> zf (stv s) = true ->
   comp_wins nx ny moore (win_streett c E S holds goals plus_one) s.
 Proof.
-  intros H1 H2 Hz. exists impl_strategy. split; [apply impl_strategy_valid; lia|].
-  intros p Hr Hp0 Hcons. apply impl_play_won; [exact Hr|exact Hcons|].
-  rewrite Hp0. exact Hz.
+  intros H1 H2 Hz. exists impl_strategy.
+  exact (implementation_is_winning_strategy s H1 H2 Hz).
 Qed.
 
 End Wins.
